@@ -12,3 +12,5 @@ mod hmac;
 mod c14_float;
 #[cfg(kani)]
 mod c01_addsub;
+#[cfg(kani)]
+mod c05_shift;
